@@ -72,6 +72,11 @@ CONSTS = [
     # C18
     ("MAX_INLINE_KEY_LENGTH", "src/peer_id.rs", const("MAX_INLINE_KEY_LENGTH")),
     ("MULTIHASH_IDENTITY_CODE", "src/peer_id.rs", const("MULTIHASH_IDENTITY_CODE")),
+    # C18: the KeyType enum of keys.proto (the model's key-admission table is stated over these numbers)
+    ("C18_KEY_TYPE_RSA", "src/schema/keys.proto", r"enum\s+KeyType\s*\{[^}]*\bRSA\s*=\s*(\d+)\s*;"),
+    ("C18_KEY_TYPE_ED25519", "src/schema/keys.proto", r"enum\s+KeyType\s*\{[^}]*\bEd25519\s*=\s*(\d+)\s*;"),
+    ("C18_KEY_TYPE_SECP256K1", "src/schema/keys.proto", r"enum\s+KeyType\s*\{[^}]*\bSecp256k1\s*=\s*(\d+)\s*;"),
+    ("C18_KEY_TYPE_ECDSA", "src/schema/keys.proto", r"enum\s+KeyType\s*\{[^}]*\bECDSA\s*=\s*(\d+)\s*;"),
     # C19
     ("C19_KAD_MAX_ADDRESSES", KAD + "types.rs", const("MAX_ADDRESSES")),
     ("C19_KAD_DEFAULT_MAX_MESSAGE_SIZE", KAD + "config.rs", const("DEFAULT_MAX_MESSAGE_SIZE")),
